@@ -23,7 +23,8 @@ def meta(ch, carrier, salt, method):
 
 
 def build(shape, assign, cfg, ctx='alone', small_domain=False, repr=None, discr=None, probe=None, bound=None):
-    """cfg: 'H' Hash only; 'HP' Hash + PartialEq with the same ignore/method choices"""
+    """cfg: 'H' Hash only; 'HP' Hash + PartialEq with the same ignore/method choices; 'HQ' Hash + PartialEq whose every field says PartialEq(ignore)
+    (what PartialEq ignores is PartialEq's business: the bytes fed to the hasher may not change)"""
     tys, fattrs, doms = [], [], []
     salt = 0
     for vi, f in enumerate(shape.variants):
@@ -38,6 +39,9 @@ def build(shape, assign, cfg, ctx='alone', small_domain=False, repr=None, discr=
                 pe = meta(ch, 'PartialEq', salt, 'eq_same')
                 if pe:
                     lines = lines + ['#[educe(%s)]' % pe] if salt % 2 else ['#[educe(%s)]' % pe] + lines
+            if cfg == 'HQ':
+                pe = ['PartialEq(ignore)', 'PartialEq(ignore = true)', 'PartialEq = false'][salt % 3]
+                lines = lines + ['#[educe(%s)]' % pe] if salt % 2 else ['#[educe(%s)]' % pe] + lines
             a.append(lines)
             if probe is not None and fi not in probe and ch not in 'ix':
                 d.append(['V(1)'])
@@ -118,6 +122,8 @@ def generate(tier):
         for assign in assignments(sh, 'cimx' if sum(f.n for f in sh.variants) <= 2 else 'cim'):
             for cfg in ('H', 'HP'):
                 cases.append(build(sh, assign, cfg))
+            if any(ch in 'cm' for a in assign for ch in a) and len(sh.positions()) <= 3:
+                cases.append(build(sh, assign, 'HQ'))
     # explicit discriminants (which must not leak into the variant tag in a way that merges variants) and #[repr]
     U, T1, N1 = S.Fields('u'), S.Fields('t', 1), S.Fields('n', 1)
     for vs in ([U, U, U, U], [U, U, U], [T1, U, N1, U], [U, T1, N1]):
